@@ -342,26 +342,41 @@ def check_roundtrip(ctx, arg, xml_bytes, label):
         elif again != xml_bytes:
             la, lb = xml_bytes.decode().splitlines(), again.decode().splitlines()
             i = next((i for i, (x, y) in enumerate(zip(la, lb)) if x != y), min(len(la), len(lb)))
-            extra_b = [y.strip() for y in lb if y not in la]
-            extra_a = [x.strip() for x in la if x not in lb]
-            if not extra_a and set(extra_b) <= {'<print new-page="yes" new-system="yes"/>', '<print new-page="yes"/>', '<print new-system="yes"/>'}:
+            # what the second file has more / less than the first, line by line (a real diff: a line that also occurs elsewhere
+            # in the other file still counts)
+            import difflib
+            extra_a, extra_b = [], []
+            for tag, a0, a1, b0, b1 in difflib.SequenceMatcher(None, la, lb, autojunk=False).get_opcodes():
+                if tag != "equal":
+                    extra_a += [x.strip() for x in la[a0:a1]]
+                    extra_b += [y.strip() for y in lb[b0:b1]]
+            prints = {'<print new-page="yes" new-system="yes"/>', '<print new-page="yes"/>', '<print new-system="yes"/>'}
+            lacks_page_or_system = any(not timemaps.objects_of(p_, S.Page) or not timemaps.objects_of(p_, S.System) for p_ in score_arg.parts)
+            if lacks_page_or_system and not extra_a and extra_b and set(extra_b) <= prints:
                 ctx.violation("re-export-gains-print-element-for-score-without-page-and-system-objects",
                               "the importer adds a page and a system at the start of every part; a score built without them is re-exported with "
                               "an additional <print> element", w)
                 return
-            prints = {'<print new-page="yes" new-system="yes"/>', '<print new-page="yes"/>', '<print new-system="yes"/>'}
-            if any(timemaps.objects_of(p, S.Staff) for p in score_arg.parts) and \
+            if lacks_page_or_system:
+                extra_b = [x for x in extra_b if x not in prints]       # (that finding is reported once the rest is explained)
+            barline_lines = lambda x: x == "<fermata/>" or x.startswith("<barline") or x == "</barline>" or x.startswith("<bar-style")  # noqa
+            has_right_fermata = any(getattr(f_, "ref", None) == "right" for p_ in score_arg.parts for f_ in timemaps.objects_of(p_, S.Fermata))
+            if has_right_fermata and not extra_a and extra_b and all(barline_lines(x) for x in extra_b) and "<fermata/>" in extra_b:
+                # (open known finding: the fermata of an inner right barline is written on both sides, so the re-loaded score has two)
+                ctx.violation("right-barline-fermata-written-again-on-the-next-measure", "the re-export of the re-loaded score has the additional "
+                              f"barline fermata(s): {extra_b[:4]}", w)
+                return
+            if any(timemaps.objects_of(p, S.Staff) for p in score_arg.parts) and (extra_a or extra_b) and \
                     all(("staff-details" in x or "staff-lines" in x or "<staves>" in x or x in ("<attributes>", "</attributes>") or x in prints)
                         for x in extra_a + extra_b):
-                if any(x in prints for x in extra_b):
-                    ctx.violation("re-export-gains-print-element-for-score-without-page-and-system-objects", "score without page/system objects", w)
                 ctx.violation("staff-details-written-but-not-read-back", "Staff objects are written as <staff-details> but load_musicxml does not "
                               "read them, so the re-export of the re-loaded score lacks them", w)
                 return
             hz = getattr(ctx, "c03_hostile", None)
             if hz in ("intra-voice-overlap", "divisions-change-off-time-points"):
                 return                   # consequences of the hostile construction are reported by the comparison above
-            ctx.violation("re-export-not-byte-identical", f"line {i}: {la[i].strip() if i < len(la) else '<eof>'!r} vs {lb[i].strip() if i < len(lb) else '<eof>'!r}", w)
+            ctx.violation("re-export-not-byte-identical", f"line {i}: {la[i].strip() if i < len(la) else '<eof>'!r} vs {lb[i].strip() if i < len(lb) else '<eof>'!r}; "
+                          f"first file only {extra_a[:3]}, second file only {extra_b[:3]}", w)
     finally:
         _in_check = False
 
